@@ -17,10 +17,29 @@ def run(ctx):
     counts = list(range(0, 32)) + [99, 100, 101, 102, 111, 121, 1000] if ctx.tier == "quick" else list(range(0, 1001))
     base = pendulum.datetime(2000, 1, 1, 0, 0, 0)
     units = ("years", "months", "weeks", "days", "hours", "minutes", "seconds")
+    import importlib
+
     for loc in LOCALES:
         lo = Locale.load(loc)
+        # independent oracle for the plural class and the phrase: the rule and the templates of the locale's own data module,
+        # read directly (not through the Locale object).  Counts ascend, so a class remembered for 1 or 2 would resurface at 101, 102.
+        data = importlib.import_module(f"pendulum.locales.{loc.replace('-', '_')}.locale").locale
+        rule, utempl = data["plural"], data["translations"]["units"]
+        single = {"years": 10 ** 9, "months": 10 ** 9, "weeks": 10 ** 9, "days": 7, "hours": 24, "minutes": 60, "seconds": 60}
         for c in counts:
             n += 1
+            try:
+                if lo.plural(c) != rule(c):
+                    fails.append({"locale": loc, "what": "plural class", "count": c, "got": lo.plural(c), "expected": rule(c)})
+                for unit in units:
+                    if 0 < c < single[unit]:
+                        exp = utempl[unit[:-1]][rule(c)].format(c)
+                        got = pendulum.duration(**{unit: c}).in_words(locale=loc)
+                        got2 = pendulum.format_diff(pendulum.duration(**{unit: c}) and base.diff(base.add(**{unit: c})), True, True, loc) if unit != "years" or c < 7000 else exp
+                        if got != exp or (got2 != exp and unit not in ("days", "weeks", "months", "years") and not (unit == "seconds" and c <= 10)):  # (<= 10 s is "a few seconds")
+                            fails.append({"locale": loc, "what": "phrase of count and unit", "unit": unit, "count": c, "got": [got, got2], "expected": exp})
+            except Exception as e:  # noqa: BLE001
+                fails.append({"locale": loc, "what": "plural oracle", "count": c, "error": f"{type(e).__name__}: {e}"})
             try:
                 s = lo.ordinalize(c)
                 assert isinstance(s, str) and s.startswith(str(c))
@@ -79,5 +98,6 @@ def run(ctx):
         if (a < b) != t.endswith("before") or (a > b) != t.endswith("after"):
             fails.append({"what": "direction", "a": str(a), "b": str(b), "text": t})
     ctx.record("humans_all_locales", n, n, "diff_for_humans/format_diff x {now, other} x {earlier, later} x absolute, Duration/Interval.in_words (incl. negative), ordinalize, plural, 16 locale format tokens x 12 months x 7 weekdays, "
+               f"the plural class and the single-unit phrase against the locale's own data module (rule and template read directly), "
                f"for all {len(LOCALES)} locales x 7 units x counts " + ("0..1000" if ctx.tier != "quick" else "0..31, 99..102, 111, 121, 1000") + ": a non-empty string, no leftover placeholder, no exception; direction on random instants",
                failures=fails, exhaustive=ctx.tier != "quick", secs=round(time.time() - t0, 1), samples=[{"locale": "fr", "text": pendulum.datetime(2000, 1, 1).diff_for_humans(pendulum.datetime(2000, 1, 4), locale="fr")}])
